@@ -48,10 +48,23 @@ def set_at(spec, path, new):
     return spec
 
 
-def mutate(r, g, spec):
-    """one structural mutation at a random node; returns (mutated copy, description)"""
+PARAMS = ["bw", "origin", "num", "low", "high", "centers", "edges", "range", "keys", "size"]
+PARAM_OF = {"Bin": ["num", "low", "high"], "SparselyBin": ["bw", "origin"], "CentrallyBin": ["centers"],
+            "IrregularlyBin": ["edges"], "Stack": ["edges"], "Bag": ["range"], "Label": ["keys", "size"],
+            "UntypedLabel": ["keys", "size"], "Index": ["size"], "Branch": ["size"]}
+
+
+def mutate(r, g, spec, want_class=None, want_param=None):
+    """one structural mutation; returns (mutated copy, description).  want_class in {"param", "twin",
+    "type"} and want_param (one of PARAMS) steer the choice when the tree offers such a place - the
+    generator goes through them program by program so that no kind of difference is left to chance"""
     s = copy.deepcopy(spec)
     cands = list(nodes_with_path(s))
+    if want_class == "param":
+        with_p = [(p_, n_) for p_, n_ in cands if want_param in PARAM_OF.get(n_["k"], [])] or \
+                 [(p_, n_) for p_, n_ in cands if n_["k"] in PARAM_OF]
+        if with_p:
+            cands = with_p
     for _ in range(30):
         path, node = r.choice(cands)
         k = node["k"]
@@ -76,6 +89,16 @@ def mutate(r, g, spec):
             opts += ["twin"]
         # structural parameters are where a comparison is most easily lost: favour them over "type"
         m = r.choice(opts[1:]) if len(opts) > 1 and r.random() < 0.7 else r.choice(opts)
+        if want_class == "param" and want_param in opts:
+            m = want_param
+        elif want_class == "param" and [o_ for o_ in opts if o_ in PARAMS]:
+            m = r.choice([o_ for o_ in opts if o_ in PARAMS])
+        elif want_class == "twin" and "twin" in opts:
+            m = "twin"
+        elif want_class == "type":
+            m = "type"
+        elif m == "twin" and want_class is not None:
+            m = "type"
         if m == "type":
             # parents that require homogeneous children cannot hold a child of another type
             if path and path[-2:-1] and path[-2] in ("pairs", "values") and get_at(s, path[:-2])["k"] in ("Label", "Index"):
@@ -207,7 +230,9 @@ def gen_one(r, i, tier):
     desc = "control (no mutation)"
     spec_b = spec
     if i % 4 != 0:
-        sb, d = mutate(r, g, spec)
+        j_ = i // 4
+        want_class = ["param", "param", "param", "twin", "type"][j_ % 5]
+        sb, d = mutate(r, g, spec, want_class, PARAMS[(j_ // 5) % len(PARAMS)])
         if sb is not None:
             try:
                 hgm.build(sb)           # constructors reject some mutations (heterogeneous Label/Index)
